@@ -121,6 +121,9 @@ func (r *Run) Expired() bool { return time.Since(r.start) > r.budget }
 
 func (r *Run) Elapsed() time.Duration { return time.Since(r.start) }
 
+// Budget is the internal time budget of the run (tier default or VERIF_BUDGET_S).
+func (r *Run) Budget() time.Duration { return r.budget }
+
 func (r *Run) Note(s string) {
 	r.mu.Lock()
 	r.notes = append(r.notes, s)
